@@ -1,0 +1,23 @@
+//go:build verif
+
+package fuse
+
+// Hook for the external verification harness (/verif); only built with
+// the "verif" build tag. Read-only.
+
+// VerifNodeCounts returns the number of directories and leaves that a
+// RawFileSystem created by NewSimpleRawFileSystem() currently tracks in
+// its node table (the root directory included). ok is false if the file
+// system is of another type or if the node table lock could not be
+// acquired without blocking.
+func VerifNodeCounts(rfs RawFileSystem) (directories, leaves int, ok bool) {
+	s, isSimple := rfs.(*simpleRawFileSystem)
+	if !isSimple {
+		return 0, 0, false
+	}
+	if !s.nodeLock.TryRLock() {
+		return 0, 0, false
+	}
+	defer s.nodeLock.RUnlock()
+	return len(s.directories), len(s.leaves), true
+}
